@@ -193,7 +193,60 @@ def bc_layouts(rng, nb, n_random):
 # ----------------------------------------------------------------------------- contract
 
 
-def evaluate(pp, spec, K, layout, korth_grid):
+O_PER = "Tpfa.discretize: a periodic face pair carries one common harmonic transmissibility of its two cells, with opposite signs on the two sides"
+
+
+def evaluate_periodic(pp, xs, ys, kxx, aavatsmark):
+    """2-D tensor grid periodic in x (left faces identified with right faces), cell-wise diagonal K with K_xx = kxx, K_yy = 1.
+    Statement clauses on the periodic pairs: single-valued flux (the two faces of a pair see the same flux, built from BOTH cells)
+    and symmetry of div*flux.  Oracle: t = 1 / (1/t_left_cell + 1/t_right_cell), t_cell = K_xx |f| / dist(cell centre, face)."""
+    g = pp.TensorGrid(np.asarray(xs, dtype=float), np.asarray(ys, dtype=float))
+    g.compute_geometry()
+    xf = g.face_centers
+    left = np.flatnonzero(np.isclose(xf[0], xs[0]) & (np.abs(g.face_normals[0]) > 0))
+    right = np.flatnonzero(np.isclose(xf[0], xs[-1]) & (np.abs(g.face_normals[0]) > 0))
+    order_l, order_r = np.argsort(xf[1, left]), np.argsort(xf[1, right])
+    left, right = left[order_l], right[order_r]
+    with warnings.catch_warnings():
+        warnings.simplefilter("ignore")
+        g.set_periodic_map(np.array([left, right]))
+    nc, nf = g.num_cells, g.num_faces
+    kxx = np.asarray(kxx, dtype=float)
+    perm = pp.SecondOrderTensor(kxx=kxx, kyy=np.ones(nc), kzz=np.ones(nc))
+    bf = g.get_all_boundary_faces()
+    bc = pp.BoundaryCondition(g, bf, ["dir"] * bf.size)
+    data = pp.initialize_data({}, KW, {"bc": bc, "second_order_tensor": perm})
+    if aavatsmark:
+        data["Aavatsmark_transmissibilities"] = True
+    try:
+        with warnings.catch_warnings():
+            warnings.simplefilter("ignore")
+            pp.Tpfa(KW).discretize(g, data)
+    except Exception as e:
+        return [(O_RUN, f"{type(e).__name__}: {e}")]
+    flux = data[pp.DISCRETIZATION_MATRICES][KW]["flux"].toarray()
+    cfm = g.cell_faces.toarray()
+    bad = []
+    tmax = max(np.abs(flux).max(), 1e-300)
+    for fl, fr in zip(left, right):
+        cl, cr = int(np.flatnonzero(cfm[fl])[0]), int(np.flatnonzero(cfm[fr])[0])
+        th = lambda c, f: kxx[c] * g.face_areas[f] / abs(g.cell_centers[0, c] - g.face_centers[0, f])  # noqa: E731
+        t = 1.0 / (1.0 / th(cl, fl) + 1.0 / th(cr, fr))
+        for f, own, other in ((fl, cl, cr), (fr, cr, cl)):
+            want = np.zeros(nc)
+            want[own] += cfm[f, own] * t
+            want[other] -= cfm[f, own] * t
+            if np.abs(flux[f] - want).max() > 1e-12 * tmax:
+                bad.append((O_PER, f"face {int(f)} (pair {int(fl)}/{int(fr)}, cells {cl}/{cr}): row {flux[f].tolist()} expected {want.tolist()}"))
+                break
+    # symmetry of the cell-to-cell operator: the divergence of a periodic grid sums the pair's flux once per side
+    A = cfm.T @ flux
+    if np.abs(A - A.T).max() > 1e-12 * tmax:
+        bad.append((O_SYM, f"periodic grid: max |A - A^T| = {np.abs(A - A.T).max():.3e}"))
+    return bad
+
+
+def evaluate(pp, spec, K, layout, korth_grid, aavatsmark=False):
     g = build_grid(pp, spec)
     dim, nf, nc = g.dim, g.num_faces, g.num_cells
     K = np.asarray(K, dtype=float)
@@ -205,6 +258,9 @@ def evaluate(pp, spec, K, layout, korth_grid):
     bc = pp.BoundaryCondition(g, bf, ["dir" if d else "neu" for d in is_dir_b])
     params = {"bc": bc, "second_order_tensor": make_tensor(pp, K, nc, dim)}
     data = pp.initialize_data({}, KW, params)
+    if aavatsmark:
+        # alternative half-transmissibility |K n| / |d|; coincides with the default n.K.d / |d|^2 on K-orthogonal grids
+        data["Aavatsmark_transmissibilities"] = True
     try:
         with warnings.catch_warnings():
             warnings.simplefilter("ignore")
@@ -347,6 +403,22 @@ def run(rep):
                         rep.violation(ob, _signature(spec, tname, lname),
                                       inputs={"grid": spec, "K": np.asarray(K).tolist(), "layout": layout, "korth": korth},
                                       detail=detail, confirmed=True)
+                    if korth and diag and lname in ("all-dir", "one-neu"):
+                        # the Aavatsmark variant of the half transmissibilities must coincide on K-orthogonal grids: all clauses again
+                        sw.case(key + ("aavatsmark",), nontrivial=True)
+                        for ob, detail in evaluate(pp, spec, K, layout, korth, aavatsmark=True):
+                            rep.violation(ob, _signature(spec, tname, lname) + " Aavatsmark_transmissibilities", detail=detail, confirmed=True,
+                                          inputs={"grid": spec, "K": np.asarray(K).tolist(), "layout": layout, "korth": korth, "aavatsmark": True})
+        # periodic grids: non-uniform tensor grids periodic in x with heterogeneous K_xx
+        for xs, ys in (([0, 0.3, 1.0], [0, 1.0, 2.0]), ([0, 0.2, 0.5, 1.0], [0, 0.5]), ([0, 0.5, 1.0], [0, 0.4, 1.0, 1.5])):
+            ncell = (len(xs) - 1) * (len(ys) - 1)
+            for rep_no in range(2 if quick else 6):
+                kxx = [1.0] * ncell if rep_no == 0 else [rng.choice([0.5, 1.0, 2.0, 5.0]) for _ in range(ncell)]
+                for aav in (False, True):
+                    sw.case(("periodic", str(xs), str(ys), tuple(kxx), aav), nontrivial=True, sample={"periodic tensor grid": [xs, ys], "kxx": kxx, "aavatsmark": aav})
+                    for ob, detail in evaluate_periodic(pp, xs, ys, kxx, aav):
+                        rep.violation(ob, f"2d periodic tensor grid{' Aavatsmark_transmissibilities' if aav else ''}", detail=detail, confirmed=True,
+                                      inputs={"periodic": True, "xs": xs, "ys": ys, "kxx": kxx, "aavatsmark": aav})
 
 
 def replay(data):
